@@ -94,24 +94,28 @@ TIE_FUNCS = {
                            "Repr.truncate", "Repr.make_shallow_clone", "Repr.reserve", "Repr.shrink_to", "Repr.ensure_modifiable",
                            "Repr.push_str", "Repr.insert_str", "Repr.remove", "Repr.pop", "Repr.is_unique", "LeanString.clear",
                            "LeanString.clone", "LeanString.clone_from", "LeanString.drop"],
+    "LSProofs.Gen.HeapBuf": ["TextLen.new_body", "Capacity.new_body", "HeapBuffer.allocate_ptr_body", "HeapBuffer.new_body",
+                             "HeapBuffer.with_capacity_body", "HeapBuffer.with_additional_body", "HeapBuffer.allocation_body",
+                             "HeapBuffer.capacity_body", "HeapBuffer.is_unique_body", "HeapBuffer.dealloc_body",
+                             "HeapBuffer.realloc_body"],
     "LSProofs.Props.C01G": [],
     "LSProofs.Gen.Good": ["Repr.push_str", "Repr.insert_str", "Repr.pop", "Repr.remove", "Repr.reserve", "Repr.ensure_modifiable",
                           "Repr.shrink_to", "Repr.set_len", "Repr.truncate_unchecked", "Repr.replace_inner", "Repr.from_str",
                           "Repr.make_shallow_clone"],
 }
 TIES = {
-    "C01": T("Ctor", "Readers", "Release", "SetLen", "Reserve", "Ensure", "Shrink", "Clone", "Clear", "PushStr", "InsertStr", "PopRemove", "Good", "Wrappers", "Panicking", "Extend", "Collect", "Decode", "CloneDrop", "StepG") + ["LSProofs.Props.C01G"],
-    "C02": T("Reserve", "Ensure", "Shrink", "Clear", "SetLen", "StepG"),
-    "C03": T("Release", "Clone", "CloneDrop", "Collect", "Reserve", "Ensure", "Shrink", "StepG"),
-    "C05": T("Reserve", "Ensure", "Shrink", "SetLen", "Ctor", "PushStr", "InsertStr", "PopRemove", "Wrappers", "Panicking", "Extend", "Collect"),
-    "C06": T("Reserve", "Shrink", "Ctor", "Extend", "Collect"),
+    "C01": T("Ctor", "Readers", "Release", "SetLen", "Reserve", "Ensure", "Shrink", "Clone", "Clear", "PushStr", "InsertStr", "PopRemove", "Good", "Wrappers", "Panicking", "Extend", "Collect", "Decode", "CloneDrop", "StepG", "HeapBuf") + ["LSProofs.Props.C01G"],
+    "C02": T("Reserve", "Ensure", "Shrink", "Clear", "SetLen", "StepG", "HeapBuf"),
+    "C03": T("Release", "Clone", "CloneDrop", "Collect", "Reserve", "Ensure", "Shrink", "StepG", "HeapBuf"),
+    "C05": T("Reserve", "Ensure", "Shrink", "SetLen", "Ctor", "PushStr", "InsertStr", "PopRemove", "Wrappers", "Panicking", "Extend", "Collect", "HeapBuf"),
+    "C06": T("Reserve", "Shrink", "Ctor", "Extend", "Collect", "HeapBuf"),
     "C07": T("SetLen", "InsertStr", "PopRemove"),
     "C08": T("Clone", "CloneDrop"),
     "C09": T("Ctor", "Reserve", "PushStr", "InsertStr", "PopRemove", "Wrappers"),
     "C10": T("Ctor", "Reserve", "Ensure", "Clear", "SetLen"),
-    "C11": T("Readers", "Ctor", "Reserve", "PushStr", "InsertStr", "Wrappers"),
-    "C12": T("Reserve"),
-    "C13": T("Shrink"),
+    "C11": T("Readers", "Ctor", "Reserve", "PushStr", "InsertStr", "Wrappers", "HeapBuf"),
+    "C12": T("Reserve", "HeapBuf"),
+    "C13": T("Shrink", "HeapBuf"),
     "C16": T("Decode"),
     "C18": T("Extend", "Collect"),
     "C20": T("Kind"),
